@@ -15,7 +15,7 @@ MustFail(vsize, keys, klens, vlens) ==
     \/ vsize < 1 \/ vsize > MaxValueSize
     \/ HasDuplicate(keys)
     \/ \E i \in 1..Len(klens) : klens[i] > MaxKeyLen
-    \/ \E i \in 1..Len(vlens) : vlens[i] > vsize      \* (a shorter value is outside the property's domain: fixed-size values)
+    \/ \E i \in 1..Len(vlens) : vlens[i] > vsize      \* (a shorter value is zero-padded by Insert: the harness compares lookups with the padded value)
 \* outcome \in {"ok","err","panic"}; found[i] = the lookup of insert i returned exactly its value
 \* may a build of supported inputs fail?  Only when a bucket is over-full: mining a collision-free 24-bit hash for a bucket
 \* succeeds with probability ~exp(-n^2 / 2^25) per attempt (1000 attempts): certain for <= 10 000 entries per bucket
